@@ -4,7 +4,7 @@
    caller's list of blocks handed out and not yet freed (ghost state of [run]).
    Non-vacuity: C06/Proofs3.v Examples demo_reaches_growth, demo_init_refused,
    demo_constant. *)
-From MV Require Import C06.Model C06.Proofs C06.Proofs2 C06.Proofs3.
+From MV Require Import Lib.Leaf C06.GenLib C06.Model C06.Proofs C06.Proofs2 C06.Proofs3 gen.Params_C06 C06.ProofsGen.
 Local Open Scope Z_scope.
 
 (* Ring invariant A.2 for every reachable state: for every malloc oracle, every
@@ -145,3 +145,78 @@ Theorem mp_orig_alloc_cap_wrap_refuted : forall mo s,
   alloc false mo s = take s /\ used (fst (alloc false mo s)) = capacity (fst (alloc false mo s)) + 1.
 Proof. exact orig_alloc_cap_wrap_refuted. Qed.
 Print Assumptions mp_orig_alloc_cap_wrap_refuted.
+
+(* ---- second tie (DESIGN.md 4.4): the C text of this run, sliced and translated into the gen_
+   functions of gen/Params_C06.v by lib/props/c06_slice.py, computes what the model computes.
+   [code] maps the model's block ids to the integers held by the cells of the C pointer ring;
+   a_r / a_b / a_h are arbitrary addresses, bc an arbitrary slab table, h1 h2 h3 the (arbitrary)
+   initial contents of the objects returned by the 1st/2nd/3rd malloc of the call and m1 m2 m3
+   their addresses (0 = failure, tied to the model's oracle at exactly the requested sizes).
+   [core] drops addresses, slab table and malloc sizes (the sizes appear in the oracle hypotheses);
+   [menc code ret s oa] = (ret, fields of s, map code (ring s), argument passed to ensure_space). *)
+Theorem gen_free_matches_model : forall (code : blk -> Z) s live b a_r bc a_b h1 m1 h2 m2 h3 m3,
+  Inv s live -> 1 <= used s ->
+  core (gen_free (alloc_index s) (block_size s) (capacity s) (flag s) (free_index s) (max_delta_cap s)
+                 (zlen (slabs s)) (used s) (map code (ring s)) a_r bc a_b h1 m1 h2 m2 h3 m3 (code b)) =
+  menc code 0 (free s b) 0.
+Proof. exact gen_free_model. Qed.
+Print Assumptions gen_free_matches_model.
+
+(* alloc: growth step (clamp by max_delta_cap, uint32 sum, overflow guard), the argument handed to
+   ensure_space, ++used, the cell returned and the cursor step with wrap; ensure_space itself is
+   the opaque call whose result / resulting fields are those of the model's ensure_space. *)
+Theorem gen_alloc_matches_model : forall (code : blk -> Z) mo s live a_r bc a_b a_h h1 m1 h2 m2 h3 m3,
+  Inv s live -> u32 (max_delta_cap s) ->
+  let nc := (capacity s + delta_of s) mod two32 in
+  let s1 := fst (ensure_space true mo s nc) in
+  let ok := snd (ensure_space true mo s nc) in
+  core (gen_alloc (alloc_index s) (block_size s) (capacity s) (flag s) (free_index s) (max_delta_cap s)
+                  (zlen (slabs s)) (used s) (map code (ring s)) a_r bc a_b h1 m1 h2 m2 h3 m3
+                  (if ok then 1 else 0) (alloc_index s1) (capacity s1) (free_index s1) (zlen (slabs s1))
+                  (map code (ring s1)) a_h) =
+  menc code (match snd (alloc true mo s) with Some b => code b | None => 0 end) (fst (alloc true mo s))
+       (if used s =? capacity s then (if nc <=? capacity s then -1 else nc) else -1).
+Proof. exact gen_alloc_model. Qed.
+Print Assumptions gen_alloc_matches_model.
+
+(* init: default capacity, the three size products (size_t), every failure path, the block
+   addresses written into the ring (m3 + i * block_size), max_delta_cap. *)
+Theorem gen_init_matches_model : forall mo c bs ai bs0 cap0 fl fi mdc nb us ring0 a_ring0 bufs0 a_bufs0 h1 m1 h2 m2 h3 m3,
+  uint32 c -> uint32 bs ->
+  zlenZ h1 = 1 -> zlenZ h2 = eff_cap c ->
+  (m1 =? 0) = negb (mo 0%nat 8) -> (m2 =? 0) = negb (mo 1%nat (8 * eff_cap c)) ->
+  (m3 =? 0) = negb (mo 2%nat (bs * eff_cap c)) ->
+  core (obs (gen_init ai bs0 cap0 fl fi mdc nb us ring0 a_ring0 bufs0 a_bufs0 h1 m1 h2 m2 h3 m3 c bs)) =
+  match init true mo c bs with
+  | Some s => menc (fun b => m3 + snd b) 1 s 0
+  | None => (0, 0, 0, 0, 0, 0, 0, 0, 0, [], 0)
+  end.
+Proof. exact gen_init_model. Qed.
+Print Assumptions gen_init_matches_model.
+
+(* ensure_space: guards, sizes, failure paths, and the new pointer ring cell by cell = the
+   model's re-linearisation (three layouts, four runs of the old ring, then the new blocks at
+   m2 + i * block_size), new alloc_index / free_index / capacity / num_buf. *)
+Theorem gen_ensure_space_matches_model : forall (code : blk -> Z) mo s live m1 m2 m3 n a_r bc a_b h1 h2 h3,
+  Inv s live -> uint32 n ->
+  let nb := zlen (slabs s) in
+  nb < 4294967295 -> zlenZ bc = nb -> zlenZ h1 = nb + 1 -> zlenZ h3 = n ->
+  (forall off, code (nb, off) = m2 + off) ->
+  (m1 =? 0) = negb (mo 0%nat (8 * (nb + 1))) ->
+  (m2 =? 0) = negb (mo 1%nat (block_size s * (n - capacity s))) ->
+  (m3 =? 0) = negb (mo 2%nat (8 * n)) ->
+  core (gen_ensure_space (alloc_index s) (block_size s) (capacity s) (flag s) (free_index s) (max_delta_cap s)
+                         nb (used s) (map code (ring s)) a_r bc a_b h1 m1 h2 m2 h3 m3 n) =
+  menc code (if snd (ensure_space true mo s n) then 1 else 0) (fst (ensure_space true mo s n)) 0.
+Proof. exact gen_ensure_model. Qed.
+Print Assumptions gen_ensure_space_matches_model.
+
+(* ... and on the whole arithmetic domain (not only reachable states) the generated functions equal
+   the hand-written references of C06/ProofsGen.v, including addresses, slab table and malloc sizes. *)
+Theorem gen_ensure_space_matches_reference : forall ai bs cap fl fi mdc nb us ring0 a_ring0 bufs0 a_bufs0 h1 m1 h2 m2 h3 m3 n,
+  dom ai cap fi us -> 0 < bs < 4294967296 -> u32 n -> 0 <= nb < 4294967295 ->
+  zlenZ ring0 = cap -> zlenZ bufs0 = nb -> zlenZ h1 = nb + 1 -> zlenZ h3 = n ->
+  gen_ensure_space ai bs cap fl fi mdc nb us ring0 a_ring0 bufs0 a_bufs0 h1 m1 h2 m2 h3 m3 n =
+  ref_ensure ai bs cap fl fi mdc nb us ring0 a_ring0 bufs0 a_bufs0 h1 m1 m2 m3 n.
+Proof. exact gen_ensure_ref. Qed.
+Print Assumptions gen_ensure_space_matches_reference.
